@@ -477,7 +477,8 @@ class SetList:
       for f in card_add(arr,x): st2.pc.append(f)
       yield st2,NONE
     elif m=='pop':
-      if args: raise Unsupported("pop(i) on an abstracted list")
+      if args and not (is_intlike(args[0]) and z3.is_int_value(z3.simplify(as_int(args[0]))) and z3.simplify(as_int(args[0])).as_long() in(0,-1)):
+        raise Unsupported("pop(i) on an abstracted list (only the ends, i in {0,-1}, are order-irrelevant)")
       for st1,empty in ex.branch(st,arr==EMPTY):
         if empty: yield st1,Exc('IndexError','pop from empty list'); continue
         e=z3.Const(f"popped!{st1.nextid[0]}",Obj); st1.nextid[0]+=1
